@@ -7,7 +7,7 @@
        column ::= leaf* ;   with or without padding (gutter table)
        leaf   ::= text | divider | spacer | image | image-with-link | button | button-with-link | raw | table
                 | social (horizontal / vertical) of elements | navbar (plain / hamburger) of links
-                | accordion of elements (title?, text?)
+                | accordion of elements (title?, text?) | carousel of n >= 1 images (thumbnails shown / hidden)
        mj-raw ::= balanced author HTML; also allowed between the blocks of the body, between the sections of a
                   wrapper and among the columns of a section or group
 
@@ -30,7 +30,8 @@ Inductive leaf := KText (s : bytes) | KDivider | KSpacer | KImage | KImageLink |
                 | KTable (ts : list tok)                (* mj-table: author's rows inside the component's table *)
                 | KSocial (vertical : bool) (els : list (option bytes))       (* elements without link: their labels *)
                 | KNavbar (hamburger : bool) (links : list bytes)
-                | KAccordion (els : list (option bytes * option bytes)).      (* title, text *)
+                | KAccordion (els : list (option bytes * option bytes))       (* title, text *)
+                | KCarousel (thumbnails : bool) (more : nat).                 (* 1 + more images *)
 Definition column := (bool * list leaf)%type.          (* true = the column has padding: its rows sit in a gutter table *)
 Inductive item := CI (cl : column) | RI (ts : list tok).   (* what a section or group holds: columns and mj-raw *)
 Inductive section := Cols (l : list item) | Groups (gs : list (list item)).
@@ -70,6 +71,13 @@ Definition acc_el (e : option bytes * option bytes) : list seg :=
   (match snd e with Some s => [P [o "div"; o "table"; o "tbody"; o "tr"; o "td"; tx s; c "td"; c "tr"; c "tbody"; c "table"; c "div"]] | None => [] end) ++
   [P [c "div"; c "label"; c "td"; c "tr"]].
 
+Definition times {A} (n : nat) (l : list A) : list A := List.concat (repeat l n).
+Definition carousel_toks (thumbs : bool) (n : nat) : list tok :=
+  [o "div"] ++ times n [o "input"] ++ [o "div"] ++ (if thumbs then times n [o "a"; o "label"; o "img"; c "label"; c "a"] else []) ++
+  [o "table"; o "tbody"; o "tr"; o "td"; o "div"] ++ times n [o "label"; o "img"; c "label"] ++ [c "div"; c "td"; o "td"; o "div"] ++
+  times n [o "div"; o "img"; c "div"] ++ [c "div"; c "td"; o "td"; o "div"] ++ times n [o "label"; o "img"; c "label"] ++
+  [c "div"; c "td"; c "tr"; c "tbody"; c "table"; c "div"; c "div"].
+
 Definition leaf_segs (k : leaf) : list seg :=
   match k with
   | KText s => [P [o "div"; tx s; c "div"]]
@@ -88,6 +96,7 @@ Definition leaf_segs (k : leaf) : list seg :=
       (if ham then [N [o "input"]; P [o "div"; o "label"; o "span"; txt; c "span"; o "span"; txt; c "span"; c "label"; c "div"]] else []) ++
       P [o "div"] :: M [o "table"; o "tr"] :: flat_map nav_link links ++ [M [c "tr"; c "table"]; P [c "div"]]
   | KAccordion els => P [o "table"; o "tbody"] :: flat_map acc_el els ++ [P [c "tbody"; c "table"]]
+  | KCarousel thumbs m => [N (carousel_toks thumbs (S m)); M [o "div"; o "img"; c "div"]]
   end.
 
 (* every component sits in its own row of the column's table; mj-raw is written as it is *)
@@ -269,9 +278,16 @@ Lemma acc_el_plain e : forallb seg_plain (acc_el e) = true.
 Proof. destruct e as [[t|] [x|]]; reflexivity. Qed.
 Lemma forallb_map {A B} (f : A -> B) (p : B -> bool) l : (forall x, p (f x) = true) -> forallb p (map f l) = true.
 Proof. intros H. induction l as [|x r IH]; cbn; [reflexivity|]. now rewrite H, IH. Qed.
+Lemma times_plain n l : forallb plain l = true -> forallb plain (times n l) = true.
+Proof. intros H. unfold times. induction n as [|n IH]; cbn [repeat List.concat]; [reflexivity|]. now rewrite forallb_app, H, IH. Qed.
+Lemma carousel_plain thumbs m : forallb seg_plain (leaf_segs (KCarousel thumbs m)) = true.
+Proof.
+  cbn [leaf_segs forallb seg_plain]. unfold carousel_toks. rewrite !forallb_app, !times_plain by reflexivity.
+  destruct thumbs; [rewrite times_plain by reflexivity|]; reflexivity.
+Qed.
 Lemma leaf_plain k : forallb seg_plain (leaf_segs k) = true.
 Proof.
-  destruct k as [s| | | | |s|s|ts|ts|vert els|ham links|els]; try reflexivity.
+  destruct k as [s| | | | |s|s|ts|ts|vert els|ham links|els|thumbs m]; try reflexivity; [| | | | |apply carousel_plain].
   - cbn [leaf_segs forallb]. now rewrite raw_seg_plain.
   - cbn [leaf_segs forallb]. now rewrite raw_seg_plain.
   - destruct vert.
@@ -438,9 +454,36 @@ Proof.
   replace (eo b :: es ++ [ec b; ec a]) with ((eo b :: es ++ [ec b]) ++ [ec a]) by (cbn; now rewrite <- app_assoc).
   apply wb_wrap. apply wb_wrap. exact H.
 Qed.
+Lemma times_events n l : flat_map tok_events (times n l) = List.concat (repeat (flat_map tok_events l) n).
+Proof. unfold times. induction n as [|n IH]; cbn [repeat List.concat flat_map]; [reflexivity|]. now rewrite flat_map_app, IH. Qed.
+Lemma run_times n es st r : wb es -> run st (List.concat (repeat es n) ++ r) = run st r.
+Proof. intros H. induction n as [|n IH]; cbn [repeat List.concat app]; [reflexivity|]. now rewrite <- app_assoc, run_app, H. Qed.
+Lemma carousel_wb v thumbs m : wb (events v (leaf_segs (KCarousel thumbs m))).
+Proof.
+  cbn [leaf_segs]. rewrite !events_cons. change (events v []) with (@nil ev). rewrite app_nil_r. destruct v.
+  - change (seg_events Std (M [o "div"; o "img"; c "div"])) with (@nil ev). rewrite app_nil_r. cbn [seg_events].
+    unfold carousel_toks. rewrite !flat_map_app, !times_events.
+    assert (T : flat_map tok_events (if thumbs then times (S m) [o "a"; o "label"; o "img"; c "label"; c "a"] else []) =
+                List.concat (repeat (if thumbs then [eo "a"; eo "label"; ec "label"; ec "a"] else []) (S m))).
+    { destruct thumbs; [apply times_events|]. clear. induction (S m) as [|n IH]; [reflexivity|]. cbn [repeat List.concat app]. exact IH. }
+    rewrite T.
+    change (flat_map tok_events [o "div"]) with [eo "div"]. change (flat_map tok_events [o "input"]) with (@nil ev).
+    change (flat_map tok_events [o "table"; o "tbody"; o "tr"; o "td"; o "div"]) with [eo "table"; eo "tbody"; eo "tr"; eo "td"; eo "div"].
+    change (flat_map tok_events [o "label"; o "img"; c "label"]) with [eo "label"; ec "label"].
+    change (flat_map tok_events [c "div"; c "td"; o "td"; o "div"]) with [ec "div"; ec "td"; eo "td"; eo "div"].
+    change (flat_map tok_events [o "div"; o "img"; c "div"]) with [eo "div"; ec "div"].
+    change (flat_map tok_events [c "div"; c "td"; c "tr"; c "tbody"; c "table"; c "div"; c "div"]) with [ec "div"; ec "td"; ec "tr"; ec "tbody"; ec "table"; ec "div"; ec "div"].
+    assert (W0 : wb (@nil ev)) by apply wb_nil.
+    assert (W1 : wb (if thumbs then [eo "a"; eo "label"; ec "label"; ec "a"] else [])) by (destruct thumbs; apply balanced_wb; reflexivity).
+    assert (W2 : wb [eo "label"; ec "label"]) by (apply balanced_wb; reflexivity).
+    assert (W3 : wb [eo "div"; ec "div"]) by (apply balanced_wb; reflexivity).
+    intros st. runs. rewrite (run_times _ _ _ _ W0). runs. rewrite (run_times _ _ _ _ W1). runs. rewrite (run_times _ _ _ _ W2). runs.
+    rewrite (run_times _ _ _ _ W3). runs. rewrite (run_times _ _ _ _ W2). now runs.
+  - change (seg_events Mso (N (carousel_toks thumbs (S m)))) with (@nil ev). apply balanced_wb. reflexivity.
+Qed.
 Lemma leaf_wb v k : wb (events v (leaf_segs k)).
 Proof.
-  destruct k as [s| | | | |s|s|ts|ts|vert els|ham links|els]; try (apply balanced_wb; destruct v; vm_compute; reflexivity); [| | |apply raw_wb| | | |].
+  destruct k as [s| | | | |s|s|ts|ts|vert els|ham links|els|thumbs m]; try (apply balanced_wb; destruct v; vm_compute; reflexivity); [| | |apply raw_wb| | | | |apply carousel_wb].
   4: { (* table *) cbn [leaf_segs]. rewrite !events_cons. change (events v []) with (@nil ev). rewrite app_nil_r.
        replace (seg_events v (P [o "table"])) with [eo "table"] by (destruct v; reflexivity).
        replace (seg_events v (P [c "table"])) with [ec "table"] by (destruct v; reflexivity).
@@ -819,11 +862,23 @@ Proof.
       with (eo "div" :: eo "table" :: eo "tbody" :: eo "tr" :: eo "td" :: te s ++ [ec "td"; ec "tr"; ec "tbody"; ec "table"; ec "div"]) by (destruct v; reflexivity).
     txs. unfold ec; cbn [texts flat_map ovis]. now rewrite !app_nil_r.
 Qed.
+Lemma texts_times n es : texts es = [] -> texts (List.concat (repeat es n)) = [].
+Proof. intros H. induction n as [|n IH]; cbn [repeat List.concat]; [reflexivity|]. now rewrite texts_app, H, IH. Qed.
+Lemma carousel_txt v thumbs m : texts (events v (leaf_segs (KCarousel thumbs m))) = leaf_texts v (KCarousel thumbs m).
+Proof.
+  replace (leaf_texts v (KCarousel thumbs m)) with (@nil bytes) by (destruct v; reflexivity).
+  cbn [leaf_segs]. rewrite !events_cons, !texts_app. change (events v []) with (@nil ev).
+  replace (texts (seg_events v (M [o "div"; o "img"; c "div"]))) with (@nil bytes) by (destruct v; reflexivity).
+  destruct v; [|reflexivity]. cbn [seg_events]. change (texts []) with (@nil bytes). rewrite !app_nil_r.
+  unfold carousel_toks. rewrite !flat_map_app, !times_events, !texts_app. rewrite !texts_times by reflexivity.
+  destruct thumbs; [rewrite times_events, texts_times by reflexivity|]; reflexivity.
+Qed.
 Lemma raw_txt v ts l : texts (events v (raw_seg ts :: l)) = raw_texts ts ++ texts (events v l).
 Proof. rewrite events_cons, texts_app. f_equal; destruct v; reflexivity. Qed.
 Lemma leaf_txt v k : texts (events v (leaf_segs k)) = leaf_texts v k.
 Proof.
-  destruct k as [s| | | | |s|s|ts|ts|vert els|ham links|els]; try (destruct v; reflexivity).
+  destruct k as [s| | | | |s|s|ts|ts|vert els|ham links|els|thumbs m]; try (destruct v; reflexivity).
+  9: { (* carousel: images only *) apply carousel_txt. }
   5: { (* table *) cbn [leaf_segs]. rewrite silent_txt by sil. rewrite raw_txt.
        replace (texts (events v [P [c "table"]])) with (@nil bytes) by (destruct v; reflexivity). rewrite app_nil_r. destruct v; reflexivity. }
   5: { (* social *) assert (R : leaf_texts v (KSocial vert els) = flat_map ovis els) by (destruct v; reflexivity). rewrite R. destruct vert.
